@@ -20,12 +20,16 @@ def run(ctx, chk, tier):
     _c10.global_state_rule(ctx, chk, rule="R14.6", modules=("scores", "group_scores"), strict=False)
     from . import c01 as _c01
     _c01.flag_identity(ctx, chk)   # direction flags: identity comparisons need BinaryLabel members on every construction path
+    own = chk.pid == "C14"    # as a prerequisite of C16 the host's own rule text and explanation stay
+    saved = (getattr(chk, "rule_text", ""), getattr(chk, "explanation", ""))
     chk.rule_text = ("obligations per receiver class (Scores, GroupScores) x metric kind (callable, name): replicate loop, name resolution, CI assembly; custom sampler dispatch; "
                      "entropy sources over all built-in sampling paths; non-trivial = obligation mentions derived call terms")
     chk.explanation = ("bootstrap_metric is evaluated with an opaque metric: row j of the buffer is metric(sample_j, **kwargs) where sample_j is the result of this iteration's "
                        "self.bootstrap_sample(config=config) (virtual call, the caller's config object); names resolve through type(self); bootstrap_ci hands utils.bootstrap_ci the "
                        "replicates, metric(self, **kwargs), alpha and config.bootstrap_method; a callable sampler's result is returned unchanged; every random draw reachable from "
                        "bootstrap_sample comes from the global numpy.random state (so a fixed seed reproduces all results).")
+    if not own:
+        chk.rule_text, chk.explanation = saved
     chk.trusted |= {"numpy.random global state is the only entropy source of np.random.*", "getattr(type(self), name) resolves through the MRO"}
     ev = ctx.ev
     for cls in (SCORES, GROUP):
@@ -177,7 +181,14 @@ def run(ctx, chk, tier):
             if len(rets) == 1 and isinstance(rets[0].value, App) and rets[0].value.fn == "call" and rets[0].value.args[0] == smp and not rets[0].value.kw \
                     and len(rets[0].value.args[1].items) == 1:
                 touched = [e for e in rets[0].events if e["kind"] == "foreign_attr_store"]
-                if touched:
+                ncalls = [e for e in rets[0].events if e["kind"] == "opaque_call" and e.get("callee") == smp]
+                if len(ncalls) != 1:
+                    # a stateful (counting) deterministic sampler is inside the quantifier: an extra call whose result is thrown away advances it, and
+                    # row j of bootstrap_metric is then no longer the metric of the j-th sample the sampler produced
+                    chk.violation("R14.4", q, short + stag_ + ":custom-sampler-calls", "the sampler is called %d times for one sample (lines %s)" % (
+                        len(ncalls), [getattr(e.get("node"), "lineno", "?") for e in ncalls]),
+                        "exactly one call of sampler(self) per bootstrap sample (row j = metric of the j-th sample produced by the sampler)", ctx.where(q))
+                elif touched:
                     chk.violation("R14.4", q, short + stag_ + ":custom-sampler-modified", "the sampler's result is modified before it is returned: .%s re-bound" % touched[0]["attr"],
                                   "sampler(self) used exactly as the sampler produced it (rows of bootstrap_metric are the metric of THAT sample)",
                                   "%s line %s" % (ctx.where(q), getattr(touched[0].get("node"), "lineno", "?")))
